@@ -14,13 +14,34 @@ import (
 
 // C14 — accepted queries are clean, and validation is stable and decisive.
 
-// c14Accept is the independent acceptor derived from the property statement.
-func c14Accept(q string) bool {
+// c14Accept is the independent acceptor derived from the property statement. It returns
+// whether the query must be accepted, and whether the statement leaves that open.
+//
+// "Not blank once control characters are removed": removing a control character from
+// between invalid UTF-8 bytes can make those bytes combine into a new control character
+// ("\xc2\x00\x80" -> U+0080), and an accepted query must come back without any, so
+// removal is taken to its fixed point. Characters that are both control and whitespace
+// (tab, newline, CR, VT, FF, NEL) may be read either as removed or as separators; where
+// the two readings disagree (only around invalid bytes) either answer is allowed.
+func c14Accept(q string) (accept, open bool) {
 	if len(q) > 1000 {
-		return false
+		return false, false
 	}
 	if strings.ContainsAny(q, "<>|&;$") {
-		return false
+		return false, false
+	}
+	a := c14NonBlank(q, true)
+	b := c14NonBlank(q, false)
+	return a, a != b
+}
+
+func c14NonBlank(q string, spaceControlsSeparate bool) bool {
+	for {
+		next := c14DropControls(q, spaceControlsSeparate)
+		if next == q {
+			break
+		}
+		q = next
 	}
 	for _, r := range q { // invalid bytes decode as U+FFFD: neither control nor space
 		if !unicode.IsControl(r) && !unicode.IsSpace(r) {
@@ -30,11 +51,28 @@ func c14Accept(q string) bool {
 	return false
 }
 
+// c14DropControls removes control runes (or turns the whitespace ones into blanks);
+// invalid bytes are kept as they are.
+func c14DropControls(s string, spaceControlsSeparate bool) string {
+	out := make([]byte, 0, len(s))
+	for i := 0; i < len(s); {
+		r, n := utf8.DecodeRuneInString(s[i:])
+		switch {
+		case !unicode.IsControl(r):
+			out = append(out, s[i:i+n]...)
+		case spaceControlsSeparate && unicode.IsSpace(r):
+			out = append(out, ' ')
+		}
+		i += n
+	}
+	return string(out)
+}
+
 // c14Check applies the whole oracle to one input; returns "" when it holds.
 func c14Check(q string) (msg string, accepted bool, out string) {
 	o, err := validation.ValidateQuery(q)
-	want := c14Accept(q)
-	if (err == nil) != want {
+	want, open := c14Accept(q)
+	if !open && (err == nil) != want {
 		return "acceptance differs from the stated rule: accepted=" + boolStr(err == nil) + " rule says " + boolStr(want), err == nil, o
 	}
 	if err != nil {
